@@ -1,3 +1,4 @@
+import GohbaseVerif.Gen.Exits
 import GohbaseVerif.Lemmas.Avail
 import GohbaseVerif.Gen.Selects
 import GohbaseVerif.Gen.RetryLoop
@@ -461,5 +462,20 @@ was replaced; the server answers NotServingRegion and `handleResultError` takes 
 and no stranded waiter, hence recorded here as the exclusion of `waiter_rechecks_partial`, not a defect. -/
 /-- the excluded case: region dead, client still set when read at line 152 → used -/
 example : pass ⟨true, .avail, some 4, false, false, .avail, true, none⟩ = (.ret 4, false) := by decide
+
+end GV.Avail
+
+namespace GV.Avail
+open GV.Gen
+
+/-- Regenerated from rpc.go: every `return` of `establishRegion` is preceded, in its own block, by a
+`MarkAvailable` call — except exactly the test-override return (0) and the two client-closed
+returns (4: the lookup reported ErrClientClosed; 6: the connection cache refused the client).
+This is the source-level counterpart of `establisher_releases_on_every_exit`. -/
+theorem establish_exits_release_in_source :
+    Exits.shapeOk = true ∧
+    ((Exits.exits.filter (fun e => e.fn == "establishRegion" &&
+        !(e.calls.any (fun c => c == "reg.MarkAvailable" || c == "originalReg.MarkAvailable")))).map (·.ord)) = [0, 4, 6] ∧
+    (Exits.exits.filter (fun e => e.fn == "establishRegion")).length = 10 := by decide
 
 end GV.Avail
